@@ -29,6 +29,9 @@ OBLIGATIONS = ["NiftyVerif.C01." + t for t in (
     "mkChainU_opnd", "matmul_sound", "flip_opnd", "scale_sound", "sandwichCore_sound", "mkSandwich_sound",
     "chainPost_pres", "mkChainU_Inv", "sumSimplify_pres", "mkSumU_Inv", "flip_Inv", "adjointOf_sound",
     "sandwichCore_sound2", "mkSum_pair", "sumRooted_lt", "tree_sound",
+    "blockHom_proj", "den_unitEntry", "combineSum_sound", "mkSumU_pair_sound", "combineSum_missing_missing",
+    "combineSum_mkSumU_sound", "sumMergeBlocksInner_sound", "sumMergeBlocks_sound", "combineChainEntry_sound",
+    "combineChain_sound", "chainMergeBlock_sound",
 )]
 RULE = ("random construction scripts (typed generator over 8 small domains, 14 leaves with independently known exact "
         "matrices, scaling/diagonal/partial-space diagonal/null/block-diagonal/sandwich/InversionEnabler, combined with "
